@@ -1,6 +1,6 @@
 (* LintProofs.v — lemmas about Lint.v: naming recognisers, rule soundness, positions. *)
 From Coq Require Import ZArith List String Ascii Bool Lia.
-From BP Require Import CliBase Lint.
+From BP Require Import CliBase Lint LintSpec.
 From BPGen Require Import GenCli.
 Import ListNotations.
 Open Scope string_scope.
@@ -146,12 +146,6 @@ Proof.
     inversion IH as [|? ? Hq Hqs]; subst. constructor; [cbn; rewrite E, Hq; reflexivity|exact Hqs].
 Qed.
 
-(* all adjacent pairs satisfy R *)
-Fixpoint adj_all (R : ascii -> ascii -> bool) (s : string) : bool :=
-  match s with
-  | String x r => match r with String y _ => R x y && adj_all R r | EmptyString => true end
-  | EmptyString => true
-  end.
 
 Lemma adj_all_tail : forall R c r, adj_all R (String c r) = true -> adj_all R r = true.
 Proof. intros R c [|y r]; [reflexivity|]. cbn [adj_all]. rewrite andb_true_iff. tauto. Qed.
@@ -169,13 +163,6 @@ Proof.
     cbn [adj_all] in H |- *. apply andb_true_iff in H as [H1 _]. rewrite H1. exact Hq.
 Qed.
 
-Fixpoint ends_us (s : string) : bool :=
-  match s with
-  | EmptyString => false
-  | String c r => match r with EmptyString => is_us c | _ => ends_us r end
-  end.
-Definition starts_us (s : string) : bool := match s with String c _ => is_us c | EmptyString => false end.
-Definition no_double_us (x y : ascii) : bool := negb (is_us x && is_us y).
 
 Lemma no_empty_parts_gen : forall s,
   ends_us s = false -> adj_all no_double_us s = true ->
@@ -221,15 +208,9 @@ Proof. intros A f l H. induction H as [|x r Hx _ IH]; [reflexivity|]. cbn. rewri
 (* PascalCase                                                                            *)
 (* ------------------------------------------------------------------------------------ *)
 
-Definition alnum (c : ascii) : bool := is_alpha c || is_digit c.
 
 (* conforming: [A-Z][A-Za-z0-9]*, and the rest is not entirely upper case (pascal_case
    treats a part like "HTTP" as an UPPERCASE word and rewrites it to "Http") *)
-Definition pascal_ok (s : string) : bool :=
-  match s with
-  | EmptyString => false
-  | String c rest => is_upper c && sall alnum rest && negb (nonempty rest && py_isupper rest)
-  end.
 
 Lemma alnum_not_us c : alnum c = true -> is_us c = false.
 Proof.
@@ -248,9 +229,6 @@ Proof.
   apply negb_true_iff in Hu. rewrite Hu, append_nil_r, (to_upper_id c (upper_not_lower c Hc)). reflexivity.
 Qed.
 
-(* clear violations: an underscore anywhere, or a lower-case first letter *)
-Definition starts_lower (s : string) : bool := match s with String c _ => is_lower c | EmptyString => false end.
-Definition bad_pascal (s : string) : bool := sany is_us s || starts_lower s.
 
 Lemma pascal_part_no_us : forall q, sany is_us q = false -> sany is_us (pascal_part q) = false.
 Proof.
@@ -284,9 +262,6 @@ Qed.
 (* UPPER_CASE                                                                            *)
 (* ------------------------------------------------------------------------------------ *)
 
-Definition upper_char (c : ascii) : bool := is_upper c || is_digit c || is_us c.
-Definition upper_ok (s : string) : bool :=
-  match s with String c r => is_upper c && sall upper_char r | EmptyString => false end.
 
 Lemma upper_char_not_lower c : upper_char c = true -> is_lower c = false.
 Proof.
@@ -309,15 +284,9 @@ Proof. intros s H. unfold py_isupper. rewrite H. apply andb_false_r. Qed.
 (* snake_case                                                                            *)
 (* ------------------------------------------------------------------------------------ *)
 
-Definition snake_char (c : ascii) : bool := is_lower c || is_digit c || is_us c.
-Definition no_alpha_digit (x y : ascii) : bool := negb (is_alpha x && is_digit y).
-Definition no_digit_alpha (x y : ascii) : bool := negb (is_digit x && is_alpha y).
 
 (* conforming: starts with a lower-case letter, only [a-z0-9_], no trailing or doubled
    underscore, letters and digits separated by an underscore (snake_case("a1") is "a_1") *)
-Definition snake_ok (s : string) : bool :=
-  starts_lower s && sall snake_char s && negb (ends_us s) &&
-  adj_all no_double_us s && adj_all no_alpha_digit s && adj_all no_digit_alpha s.
 
 Lemma snake_char_not_upper c : snake_char c = true -> is_upper c = false.
 Proof.
@@ -433,19 +402,7 @@ Proof. intros s H E. pose proof (snake_case_no_upper s) as N. rewrite E in N. co
 (* ------------------------------------------------------------------------------------ *)
 Open Scope Z_scope.
 
-Definition name_ok (k : defkind) (n : string) : bool :=
-  match k with
-  | KAlias | KEnum | KMessage => pascal_ok n
-  | KConstant | KEnumField => upper_ok n
-  | KMessageField => snake_ok n
-  | KOption | KProto => true
-  end.
 
-(* a definition that follows the style guide *)
-Definition conforming (d : ldef) : Prop :=
-  name_ok (l_kind d) (l_name d) = true /\
-  1 <= l_depth d /\ l_indent d = 4 * (l_depth d - 1) /\
-  (l_kind d = KEnum -> existsb (Z.eqb 0) (l_values d) = true).
 
 Lemma indent_conforming : forall depth, 1 <= depth -> indent_warns (4 * (depth - 1)) depth = false.
 Proof.
@@ -483,18 +440,6 @@ Proof.
   rewrite (conforming_no_rule_fires d r HF Hr Hk). reflexivity.
 Qed.
 
-(* clear violations and the warning each must produce *)
-Definition clear_violations (d : ldef) : list string :=
-  match l_kind d with
-  | KAlias => if bad_pascal (l_name d) then ["AliasNameNotPascal"] else []
-  | KMessage => if bad_pascal (l_name d) then ["MessageNameNotPascal"] else []
-  | KEnum => List.app (if bad_pascal (l_name d) then ["EnumNameNotPascal"] else [])
-                      (if existsb (Z.eqb 0) (l_values d) then [] else ["EnumHasNoFieldValue0"])
-  | KConstant => if sany is_lower (l_name d) then ["ConstantNameNotUpper"] else []
-  | KEnumField => if sany is_lower (l_name d) then ["EnumFieldNameNotUpper"] else []
-  | KMessageField => if sany is_upper (l_name d) then ["MessageFieldNameNotSnake"] else []
-  | KOption | KProto => []
-  end%string.
 
 Lemma in_lint : forall defs d ty r,
   In d defs -> In ty lint_supported_types -> kind_matches ty (l_kind d) = true ->
